@@ -1,6 +1,6 @@
 #!/bin/sh
 # regenerate _CoqProject file list + Makefile when the set of .v files changed
-cd /verif/coq || exit 2
+cd "$(dirname "$0")/../coq" || exit 2
 { cat _CoqProject.head; find Gen Model Spec Proofs Props Corr -maxdepth 1 -name '*.v' ! -name 'cases_*' | sort; } > _CoqProject.new
 if ! cmp -s _CoqProject.new _CoqProject || [ ! -f Makefile ]; then
   mv _CoqProject.new _CoqProject
